@@ -83,6 +83,7 @@ class Contract:
         self.requires = []
         self.ensures = []           # [(label or None, expr)]
         self.raises = []            # [(excname, when-expr or None)]
+        self.raises_at = []         # [{lineno: expr, offset: expr}] parallel to raises
         self.invariants = {}        # loop ordinal -> [expr]
         self.decreases = {}
         self.modifies = []
@@ -118,6 +119,7 @@ class Contract:
                     continue
                 if nm == 'raises':
                     self.raises.append((c.args[0].id, kw.get('when')))
+                    self.raises_at.append({k: v for k, v in kw.items() if k in ('lineno', 'offset')})
                     continue
                 if nm == 'invariant':
                     self.invariants.setdefault(c.args[0].value, []).append(_unlambda(c.args[1]))
